@@ -87,7 +87,7 @@ def _p6(ctx, g, root, fl, shared):
     empt = {nid for (nid, si, rv) in x.aggs(r'TryRecvError::Empty$')}
     ends = set()
     for (nid, si, rv) in x.aggs(r'mpsc::RecvError::RecvError$|mpmc::RecvError|sync::mpsc::RecvError'):
-        if g.nodes[nid].inst == g.root_inst:
+        if x.home(nid) == g.root_inst:
             ends.add(nid)
     for (nid, si, rv) in x.aggs(r'futures::Async::Ready$|poll::Async::Ready$'):
         e = x.agg_expr(nid, si)
@@ -108,7 +108,7 @@ def _p6(ctx, g, root, fl, shared):
                 'after Disconnected the operation can wait or return something else', flavour=fl, where=g.where(d),
                 sub='%s|disc.i%d.bb%d' % (rsub, g.nodes[d].inst, g.nodes[d].bb))
     # Empty leads to a wait and, after waking, to a retry (or NotReady once parked)
-    notready = {nid for (nid, si, rv) in x.aggs(r'Async::NotReady$') if g.nodes[nid].inst == g.root_inst}
+    notready = {nid for (nid, si, rv) in x.aggs(r'Async::NotReady$') if x.home(nid) == g.root_inst}
     for e_ in sorted(empt):
         bad = x.reach_from(e_, blocked=blockers) & set(g.exits)
         ctx.add('P6b', 'T-MUST', root, not bad, 'Empty leads to the waiter, never directly to a return' if not bad else
@@ -285,11 +285,9 @@ def _p7(ctx):
     x = g.x
     pushes = set(x.ext_calls(r'VecDeque(::<.*>)?::push_(back|front)$'))
     trues = []
-    for n in g.nodes:
-        if n.id in g.live() and n.kind == 'block' and n.inst == g.root_inst:
-            for s in n.stmts:
-                if s['k'] == 'assign' and s['pl']['l'] == 0 and not s['pl']['p'] and s['rv']['k'] == 'use' and s['rv']['op']['k'] == 'const' and str(s['rv']['op'].get('v')) == '1':
-                    trues.append(n.id)
+    g._fwd_calls = set()
+    _orig, _all = g._const_origins(g.root_inst, 0, set())
+    trues += sorted({x.rep(n_) for (n_, v_) in _orig if str(v_) == '1' and any(m_ in g.live() for m_ in g.members(n_))})
     ctx.floor('P7d', len(trues), 1, '`true` result of fut_wait')
     for t in trues:
         ok = x.dom(x.expand_sites(pushes), t)
@@ -349,44 +347,42 @@ def _roles(ctx, g, fn, label, p_seq, p_at, p_wc):
     def from_param(e, pi):
         return any(s[0] == 'param' and s[1] == g.root_inst and s[2] == pi for s in g.deep_walk(e))
 
+    # every comparison the condition makes, in normalised form (rel in Eq / Lt, operands stripped), whatever its
+    # syntax: `a == b`, `a != b`, `match a { b => .. }`, a boolean temporary that joins several comparisons
+    comparisons = [('Eq', t_.a, t_.b) for t_ in x.tests(('Eq',))] + [('Lt', t_.a, t_.b) for t_ in x.tests(('Lt',))]
+    for sid in x.switches():
+        e = g.strip(g.switch_expr(sid))
+        if e[0] == 'phi':
+            for alt in e[1]:
+                nr_ = norm_rel(g, alt)
+                if nr_:
+                    comparisons.append(('Lt' if nr_[0] in ('Lt', 'Le') else 'Eq', nr_[1], nr_[2]))
     wc0 = False
     seq_at = False
     bad = []
-    for sid in x.switches():
-        e = g.strip(g.switch_expr(sid))
-        alts = [e] if e[0] != 'phi' else [g.strip(a) for a in e[1]]
-        for a in alts:
-            if a[0] != 'bin' or a[1] not in ('Eq', 'Ne', 'Gt', 'Lt', 'Ge', 'Le'):
+    for (rel, ca, cb) in comparisons:
+        for (p, q) in ((ca, cb), (cb, ca)):
+            lds = x.loads_in(p)
+            if not lds:
                 continue
-            sides = [g.strip(a[2]), g.strip(a[3])]
-            for (p, q) in ((sides[0], sides[1]), (sides[1], sides[0])):
-                lds = x.loads_in(p)
-                if not lds:
-                    continue
-                arg0s = [g.call_args(l.nid)[0] for l in lds]
-                if q[0] == 'c' and str(q[1]) == '0' and a[1] in ('Eq', 'Ne') and p[0] == 'call':
-                    if all(from_param(z, p_wc) for z in arg0s):
-                        wc0 = True
-                    elif any(from_param(z, p_at) for z in arg0s):
-                        bad.append('the awaited tag cell is compared with 0 (role of the writer count)')
-                if from_param(q, p_seq) or any(from_param(z, p_seq) for z in [q]):
-                    if all(from_param(z, p_at) for z in arg0s):
-                        seq_at = True
-                    elif any(from_param(z, p_wc) for z in arg0s):
-                        bad.append('the writer count is compared with the sequence number (role of the awaited tag cell)')
+            arg0s = [g.call_args(l.nid)[0] for l in lds]
+            if q[0] == 'c' and str(q[1]) == '0' and rel == 'Eq' and p[0] == 'call':
+                if all(from_param(z, p_wc) for z in arg0s):
+                    wc0 = True
+                elif any(from_param(z, p_at) for z in arg0s):
+                    bad.append('the awaited tag cell is compared with 0 (role of the writer count)')
+            if from_param(q, p_seq):
+                if all(from_param(z, p_at) for z in arg0s):
+                    seq_at = True
+                elif any(from_param(z, p_wc) for z in arg0s):
+                    bad.append('the writer count is compared with the sequence number (role of the awaited tag cell)')
     # P7g: a never-written slot (tag bit still set) is not mistaken for a published one
     tagbit = False
     gi = ctx.graph(ctx.fn1(r'^countedindex::is_tagged$'))
     ri = gi.strip(gi.ev_local(gi.root_inst, 0))
     ind = None
-    nr_ = norm_rel(gi, ri)
-    if nr_ and nr_[0] == 'Eq' and not nr_[3]:
-        for l_ in (nr_[1], nr_[2]):
-            if l_[0] == 'bin' and l_[1] == 'BitAnd':
-                for z in (l_[2], l_[3]):
-                    z = gi.strip(z)
-                    if z[0] == 'c':
-                        ind = str(z[1])
+    from rules_extra import _bit_test_const
+    ind = _bit_test_const(gi, ri)
     for sid in x.switches():
         e = g.strip(g.switch_expr(sid))
         for s_ in g.walk(e):
@@ -403,20 +399,15 @@ def _roles(ctx, g, fn, label, p_seq, p_at, p_wc):
     # slot was republished, or the stream advanced between the position load and the attempt): that must wake too
     ahead = False
     eq = False
-    for sid in x.switches():
-        e = g.strip(g.switch_expr(sid))
-        alts = [e] if e[0] != 'phi' else [g.strip(a) for a in e[1]]
-        for a in alts:
-            if a[0] != 'bin':
-                continue
-            both = any(from_param(z, p_seq) for z in (a[2], a[3])) or any(from_param(z, p_seq) for s_ in g.walk(a) if s_[0] == 'call' for z in g.call_args(s_[1]))
-            lds = [l for l in x.loads_in(a) if all(from_param(z, p_at) for z in g.call_args(l.nid)[:1])]
-            if not lds or not both:
-                continue
-            if a[1] in ('Eq', 'Ne'):
-                eq = True
-            if a[1] in ('Gt', 'Ge', 'Lt', 'Le'):
-                ahead = True
+    for (rel, ca, cb) in comparisons:
+        both = any(from_param(z, p_seq) for z in (ca, cb)) or any(from_param(z, p_seq) for side in (ca, cb) for s_ in g.walk(side) if s_[0] == 'call' for z in g.call_args(s_[1]))
+        lds = [l for side in (ca, cb) for l in x.loads_in(side) if all(from_param(z, p_at) for z in g.call_args(l.nid)[:1])]
+        if not lds or not both:
+            continue
+        if rel == 'Eq':
+            eq = True
+        else:
+            ahead = True
     ctx.add('P7h', 'T-FLOW', fn, eq and ahead, '%s: wakes when the tag equals the awaited sequence number or is ahead of it' % label if eq and ahead else
             '%s: the wake-up condition lacks the %s test between the slot tag and the awaited sequence number: on a stream shared by several consumers the tag can skip past the awaited number (sibling took the value, slot republished) and the sleeper never wakes'
             % (label, 'equality' if not eq else '"tag is ahead"'), sub=label + '|ahead')
